@@ -6,6 +6,11 @@
 //!    op    `L<id>:<ts>:<key|->:<v>` `R…` `X…`  event on stream left / right / other
 //!          `Wl<int>` `Wr<int>` `Wx<int>`       watermark (stream letter used in manager mode)
 //! obs  := `nocalls` | call;call;…   call := `-` | `lid:rid,…` sorted   (the Vec<JoinedEvent> of that call)
+//! multi-join manager case := `J <join+join+…> <op,op,…>`  (several joins registered on ONE StreamJoinManager)
+//!    join  `<l><r>:<durMs>:<cond>`  l, r = stream letters a..e, l != r; registered in list order as j0, j1, …
+//!    op    `A<id>:<ts>:<key|->:<v>` … `E…`  process_event of an event whose source is stream a..e
+//!          `Wa<int>` … `We<int>`            update_watermark(stream, w)
+//! obs  := `nocalls` | call;call;…   call := batch/batch/…  one batch per registered join (what ITS handler received)
 use rre_harness::*;
 use rust_rule_engine::rete::stream_join_node::{JoinStrategy, JoinType, JoinedEvent, StreamJoinNode};
 use rust_rule_engine::streaming::event::StreamEvent;
@@ -43,19 +48,69 @@ fn show_op(op: &Op) -> String {
     }
 }
 
-fn show_case(mode: char, dur: u64, cond: u64, ops: &[Op]) -> String {
-    let o = if ops.is_empty() {
+#[derive(Clone, Debug, PartialEq)]
+struct JoinSpec {
+    l: char, // 'a'..='e'
+    r: char,
+    dur: u64,
+    cond: u64,
+}
+
+fn show_ops(ops: &[Op]) -> String {
+    if ops.is_empty() {
         "-".to_string()
     } else {
         ops.iter().map(show_op).collect::<Vec<_>>().join(",")
+    }
+}
+
+fn show_case(mode: char, dur: u64, cond: u64, ops: &[Op]) -> String {
+    format!("{} {} {} {}", mode, dur, cond, show_ops(ops))
+}
+
+fn show_jcase(joins: &[JoinSpec], ops: &[Op]) -> String {
+    let js: Vec<String> = joins.iter().map(|j| format!("{}{}:{}:{}", j.l, j.r, j.dur, j.cond)).collect();
+    format!("J {} {}", js.join("+"), show_ops(ops))
+}
+
+fn parse_join(s: &str) -> Option<JoinSpec> {
+    let f: Vec<&str> = s.split(':').collect();
+    if f.len() != 3 {
+        return None;
+    }
+    let lr: Vec<char> = f[0].chars().collect();
+    if lr.len() != 2 || !"abcde".contains(lr[0]) || !"abcde".contains(lr[1]) || lr[0] == lr[1] {
+        return None;
+    }
+    Some(JoinSpec { l: lr[0], r: lr[1], dur: f[1].parse().ok()?, cond: f[2].parse().ok()? })
+}
+
+fn parse_jcase(case: &str) -> Option<(Vec<JoinSpec>, Vec<Op>)> {
+    let t: Vec<&str> = case.split_whitespace().collect();
+    if t.len() != 3 || t[0] != "J" {
+        return None;
+    }
+    let joins = t[1].split('+').map(parse_join).collect::<Option<Vec<_>>>()?;
+    let ops = if t[2] == "-" {
+        vec![]
+    } else {
+        t[2].split(',').map(parse_op).collect::<Option<Vec<_>>>()?
     };
-    format!("{} {} {} {}", mode, dur, cond, o)
+    // only stream letters a..e in this mode
+    for op in &ops {
+        match op {
+            Op::Ev(c, _) if ('A'..='E').contains(c) => {}
+            Op::Wm(c, _) if ('a'..='e').contains(c) => {}
+            _ => return None,
+        }
+    }
+    Some((joins, ops))
 }
 
 fn parse_op(s: &str) -> Option<Op> {
     let c = s.chars().next()?;
     match c {
-        'L' | 'R' | 'X' => {
+        'L' | 'R' | 'X' | 'A'..='E' => {
             let f: Vec<&str> = s[1..].split(':').collect();
             if f.len() != 4 {
                 return None;
@@ -72,7 +127,7 @@ fn parse_op(s: &str) -> Option<Op> {
         }
         'W' => {
             let st = s[1..].chars().next()?;
-            if !"lrx".contains(st) {
+            if !"lrxabcde".contains(st) {
                 return None;
             }
             Some(Op::Wm(st, s[2..].parse().ok()?))
@@ -96,6 +151,13 @@ fn parse_case(case: &str) -> Option<(char, u64, u64, Vec<Op>)> {
     } else {
         t[3].split(',').map(parse_op).collect::<Option<Vec<_>>>()?
     };
+    for op in &ops {
+        match op {
+            Op::Ev(c, _) if "LRX".contains(*c) => {}
+            Op::Wm(c, _) if "lrx".contains(*c) => {}
+            _ => return None,
+        }
+    }
     Some((mode, t[1].parse().ok()?, t[2].parse().ok()?, ops))
 }
 
@@ -103,6 +165,11 @@ fn stream_name(c: char) -> &'static str {
     match c {
         'L' | 'l' => "left",
         'R' | 'r' => "right",
+        'A' | 'a' => "orders",
+        'B' | 'b' => "payments",
+        'C' | 'c' => "shipments",
+        'D' | 'd' => "refunds",
+        'E' | 'e' => "audit",
         _ => "other",
     }
 }
@@ -131,6 +198,10 @@ fn v_of(e: &StreamEvent) -> i64 {
 }
 
 fn mk_node(dur: u64, cond: u64) -> StreamJoinNode {
+    mk_node_on("left", "right", dur, cond)
+}
+
+fn mk_node_on(left: &str, right: &str, dur: u64, cond: u64) -> StreamJoinNode {
     let c: Box<dyn Fn(&StreamEvent, &StreamEvent) -> bool + Send + Sync> = match cond {
         0 => Box::new(|_, _| true),
         1 => Box::new(|l, r| v_of(l) < v_of(r)),
@@ -138,8 +209,8 @@ fn mk_node(dur: u64, cond: u64) -> StreamJoinNode {
         _ => Box::new(|l, r| l.metadata.timestamp <= r.metadata.timestamp),
     };
     StreamJoinNode::new(
-        "left".to_string(),
-        "right".to_string(),
+        left.to_string(),
+        right.to_string(),
         JoinType::Inner,
         JoinStrategy::TimeWindow { duration: Duration::from_millis(dur) },
         Box::new(|e| e.data.get("k").and_then(|v| v.as_string())),
@@ -171,7 +242,43 @@ fn show_call(js: &[JoinedEvent]) -> String {
     ps.into_iter().map(|p| p.2).collect::<Vec<_>>().join(",")
 }
 
+/// several joins on one manager: every join has its own sink; after every manager call each sink is drained
+fn exec_multi(joins: &[JoinSpec], ops: &[Op]) -> String {
+    let mut mgr = StreamJoinManager::new();
+    let mut sinks: Vec<Arc<Mutex<Vec<JoinedEvent>>>> = Vec::new();
+    for (i, j) in joins.iter().enumerate() {
+        let sink: Arc<Mutex<Vec<JoinedEvent>>> = Arc::new(Mutex::new(Vec::new()));
+        let s2 = sink.clone();
+        mgr.register_join(
+            format!("j{}", i),
+            mk_node_on(stream_name(j.l), stream_name(j.r), j.dur, j.cond),
+            Box::new(move |je| s2.lock().unwrap().push(je)),
+        );
+        sinks.push(sink);
+    }
+    let mut calls: Vec<String> = Vec::new();
+    for op in ops {
+        match op {
+            Op::Ev(s, e) => mgr.process_event(mk_event(*s, e)),
+            Op::Wm(s, w) => mgr.update_watermark(stream_name(*s), *w),
+        }
+        let row: Vec<String> = sinks
+            .iter()
+            .map(|sk| {
+                let out: Vec<JoinedEvent> = sk.lock().unwrap().drain(..).collect();
+                show_call(&out)
+            })
+            .collect();
+        calls.push(row.join("/"));
+    }
+    if calls.is_empty() { "nocalls".into() } else { calls.join(";") }
+}
+
 fn exec(case: &str) -> String {
+    if case.starts_with("J ") {
+        let Some((joins, ops)) = parse_jcase(case) else { return "bad-case".into() };
+        return exec_multi(&joins, &ops);
+    }
     let Some((mode, dur, cond, ops)) = parse_case(case) else { return "bad-case".into() };
     let mut calls: Vec<String> = Vec::new();
     if mode == 'D' {
@@ -295,6 +402,269 @@ fn rand_events(rng: &mut Rng, n: usize, nkeys: u64, dom: u64, keyless: bool) -> 
         .collect()
 }
 
+/// shift every timestamp and every watermark of a history by `base` (family "timestamps beyond 2^53")
+fn shifted(ops: &[Op], base: u64) -> Vec<Op> {
+    ops.iter()
+        .map(|op| match op {
+            Op::Ev(s, e) => Op::Ev(*s, Ev { ts: e.ts + base, ..e.clone() }),
+            Op::Wm(s, w) => Op::Wm(*s, *w + base as i64),
+        })
+        .collect()
+}
+
+/// timestamp offsets at realistic clock magnitudes and at the boundaries of the numeric types a window test could
+/// be computed in: 2^24 (f32), 2^31 / 2^32 (i32 / u32; the small offsets added on top straddle the boundary), epoch
+/// seconds / milliseconds / microseconds, around 2^53 (first integers f64 cannot tell apart), 2^54, 10^16, epoch
+/// nanoseconds (19 digits, f64 spacing 256), 2^62, and close to the top of the i64 range
+const BIG_BASES: [u64; 15] = [
+    (1u64 << 24) - 3,
+    (1u64 << 31) - 3,
+    (1u64 << 32) - 3,
+    1_700_000_000,
+    1_700_000_000_000,
+    1_700_000_000_000_000,
+    (1u64 << 53) - 3,
+    1u64 << 53,
+    (1u64 << 53) + 1,
+    (1u64 << 54) - 2,
+    10_000_000_000_000_000,
+    1_700_000_000_000_000_000,
+    1_758_844_800_123_456_789,
+    (1u64 << 62) - 5,
+    (1u64 << 63) - (1u64 << 20),
+];
+
+/// ONE long history in ONE interleaving (family "more events of one key than the initial VecDeque capacity,
+/// partial evictions in between"): `nl` + `nr` events of `nkeys` keys arrive in a random interleaving with
+/// timestamps that progress with the arrival position (plus jitter); watermark advances follow the largest
+/// timestamp seen so far at distance `slack`. With slack >= jitter no event is evicted before a partner arrives,
+/// so the completeness clause of the oracle stays in force over the whole run while the per-key queues keep
+/// sliding (push_back / pop_front: the ring buffers wrap around).
+fn long_history(rng: &mut Rng, nl: usize, nr: usize) -> (u64, u64, Vec<Op>) {
+    let nkeys = *rng.pick(&[1u64, 1, 2, 2, 3]);
+    let w_units = *rng.pick(&[1u64, 2, 3, 5]);
+    let dur = w_units * 1000 + *rng.pick(&[0u64, 0, 999]);
+    let step = *rng.pick(&[0u64, 1, 1, 2, 3]);
+    let jit = *rng.pick(&[0u64, 1, 2, 3]);
+    let safe = rng.chance(3, 4);
+    let slack: i64 =
+        if safe { (jit + rng.below(2)) as i64 } else { rng.below(jit + 2 * w_units + 2) as i64 - (w_units + 1) as i64 };
+    let wm_every = *rng.pick(&[1u64, 1, 2, 3]); // a watermark advance after every k-th arrival on average
+    let keyless = rng.chance(1, 4);
+    let cond = if rng.chance(2, 3) { 0 } else { rng.range(1, 3) };
+    let mut sides: Vec<char> = std::iter::repeat('L').take(nl).chain(std::iter::repeat('R').take(nr)).collect();
+    // interleavings: shuffled, or bursts (a run of left events, then right events, ...), or all of one side first
+    match rng.below(4) {
+        0 => {}
+        1 => {
+            let mut v = Vec::new();
+            let (mut l, mut r) = (nl, nr);
+            let mut cur = if rng.chance(1, 2) { 'L' } else { 'R' };
+            while l + r > 0 {
+                let burst = rng.range(1, 5) as usize;
+                for _ in 0..burst {
+                    if cur == 'L' && l > 0 {
+                        v.push('L');
+                        l -= 1;
+                    } else if cur == 'R' && r > 0 {
+                        v.push('R');
+                        r -= 1;
+                    }
+                }
+                cur = if cur == 'L' { 'R' } else { 'L' };
+            }
+            sides = v;
+        }
+        _ => rng.shuffle(&mut sides),
+    }
+    let (mut li, mut ri) = (0u64, 0u64);
+    let mut mx: i64 = 0;
+    let mut ops = Vec::new();
+    for (pos, sd) in sides.iter().enumerate() {
+        let ts = pos as u64 * step + rng.below(jit + 1);
+        let id = if *sd == 'L' { &mut li } else { &mut ri };
+        let e = Ev {
+            id: *id,
+            ts,
+            key: if keyless && rng.chance(1, 8) { None } else { Some(rng.below(nkeys)) },
+            v: rng.below(3) as i64 - 1,
+        };
+        *id += 1;
+        ops.push(Op::Ev(*sd, e));
+        mx = mx.max(ts as i64);
+        if rng.chance(1, wm_every) {
+            ops.push(Op::Wm(*rng.pick(&['l', 'r']), mx - slack));
+        }
+    }
+    (dur, cond, ops)
+}
+
+/// all merges of several sequences (each keeps its order); when there are more than `cap`, `cap` random ones
+fn merges_k(seqs: &[Vec<Op>], cap: usize, rng: &mut Rng) -> Vec<Vec<Op>> {
+    fn count(ns: &[usize]) -> u128 {
+        // multinomial coefficient
+        let mut c: u128 = 1;
+        let mut tot: u128 = 0;
+        for &n in ns {
+            for i in 1..=n as u128 {
+                tot += 1;
+                c = c * tot / i;
+            }
+        }
+        c
+    }
+    fn go(seqs: &[Vec<Op>], pos: &mut Vec<usize>, cur: &mut Vec<Op>, out: &mut Vec<Vec<Op>>) {
+        if pos.iter().zip(seqs).all(|(p, s)| *p == s.len()) {
+            out.push(cur.clone());
+            return;
+        }
+        for i in 0..seqs.len() {
+            if pos[i] < seqs[i].len() {
+                cur.push(seqs[i][pos[i]].clone());
+                pos[i] += 1;
+                go(seqs, pos, cur, out);
+                pos[i] -= 1;
+                cur.pop();
+            }
+        }
+    }
+    let ns: Vec<usize> = seqs.iter().map(|s| s.len()).collect();
+    let mut out = Vec::new();
+    if count(&ns) <= cap as u128 {
+        go(seqs, &mut vec![0; seqs.len()], &mut Vec::new(), &mut out);
+    } else {
+        for _ in 0..cap {
+            let mut pos = vec![0usize; seqs.len()];
+            let mut cur = Vec::new();
+            loop {
+                let left: usize = seqs.iter().zip(&pos).map(|(s, p)| s.len() - p).sum();
+                if left == 0 {
+                    break;
+                }
+                // uniform over the remaining events = uniform over merges
+                let mut k = rng.below(left as u64) as usize;
+                for i in 0..seqs.len() {
+                    let rem = seqs[i].len() - pos[i];
+                    if k < rem {
+                        cur.push(seqs[i][pos[i]].clone());
+                        pos[i] += 1;
+                        break;
+                    }
+                    k -= rem;
+                }
+            }
+            out.push(cur);
+        }
+    }
+    out
+}
+
+/// join topologies on one manager; the first ones share a stream in DIFFERENT roles (right input of one join,
+/// left input of another), then shared in the same role, disjoint, duplicate pair
+const TOPOLOGIES: [&[&str]; 14] = [
+    &["ab", "bc"],
+    &["bc", "ab"],
+    &["ab", "ba"],
+    &["ab", "ca"],
+    &["ab", "bc", "ca"],
+    &["ab", "bc", "cd"],
+    &["ba", "cb", "ac"],
+    &["ab", "bc", "ac"],
+    &["ab", "ac"],
+    &["ab", "cb"],
+    &["ab", "ab"],
+    &["ab", "cd"],
+    &["ab", "ba", "ab"],
+    &["ab"],
+];
+
+fn multi_join_cases(rng: &mut Rng, out: &mut Vec<String>, thorough: bool) {
+    let durs = [0u64, 999, 1000, 1999, 2000, 3000, 5000];
+    let names: Vec<&str> = if rng.chance(3, 4) {
+        TOPOLOGIES[rng.below(TOPOLOGIES.len() as u64) as usize].to_vec()
+    } else {
+        Vec::new()
+    };
+    let mut joins: Vec<JoinSpec> = Vec::new();
+    let same_params = rng.chance(1, 3);
+    let (d0, c0) = (*rng.pick(&durs), if rng.chance(1, 2) { 0 } else { rng.range(1, 3) });
+    if names.is_empty() {
+        // random topology over streams a..d
+        for _ in 0..rng.range(2, 3) {
+            let l = *rng.pick(&['a', 'b', 'c', 'd']);
+            let mut r = *rng.pick(&['a', 'b', 'c', 'd']);
+            while r == l {
+                r = *rng.pick(&['a', 'b', 'c', 'd']);
+            }
+            joins.push(JoinSpec { l, r, dur: d0, cond: c0 });
+        }
+    } else {
+        for n in &names {
+            let cs: Vec<char> = n.chars().collect();
+            joins.push(JoinSpec { l: cs[0], r: cs[1], dur: d0, cond: c0 });
+        }
+    }
+    if !same_params {
+        for j in joins.iter_mut() {
+            j.dur = *rng.pick(&durs);
+            j.cond = if rng.chance(1, 2) { 0 } else { rng.range(1, 3) };
+        }
+    }
+    // events on the consumed streams, sometimes also on a stream nobody consumes
+    let mut streams: Vec<char> = Vec::new();
+    for j in &joins {
+        for c in [j.l, j.r] {
+            if !streams.contains(&c) {
+                streams.push(c);
+            }
+        }
+    }
+    streams.sort();
+    let unconsumed = rng.chance(1, 4);
+    if unconsumed {
+        streams.push('e');
+    }
+    let maxper: u64 = if thorough { 3 } else { 2 };
+    let nkeys = rng.range(1, 2);
+    let dom = *rng.pick(&[3u64, 5, 8]);
+    let keyless = rng.chance(1, 3);
+    let seqs: Vec<Vec<Op>> = streams
+        .iter()
+        .map(|c| {
+            let n = rng.range(0, maxper).max(rng.range(0, maxper)) as usize;
+            rand_events(rng, n, nkeys, dom, keyless)
+                .into_iter()
+                .map(|e| Op::Ev(c.to_ascii_uppercase(), e))
+                .collect()
+        })
+        .collect();
+    let slack = rng.below(4) as i64;
+    let wm_streams: Vec<char> = streams.iter().cloned().chain(std::iter::once('e')).collect();
+    for m in merges_k(&seqs, if thorough { 180 } else { 90 }, rng) {
+        out.push(show_jcase(&joins, &m));
+        // tracking watermark on a random stream after every arrival
+        let mut a = Vec::new();
+        let mut mx: i64 = 0;
+        for op in &m {
+            a.push(op.clone());
+            if let Some(t) = ts_of(op) {
+                mx = mx.max(t as i64);
+                a.push(Op::Wm(*rng.pick(&wm_streams), mx - slack));
+            }
+        }
+        out.push(show_jcase(&joins, &a));
+        // arbitrary watermark calls
+        let mut b = Vec::new();
+        for op in &m {
+            if rng.chance(1, 3) {
+                b.push(Op::Wm(*rng.pick(&wm_streams), rng.below(dom + 6) as i64 - 2));
+            }
+            b.push(op.clone());
+        }
+        out.push(show_jcase(&joins, &b));
+    }
+}
+
 fn gen(rng: &mut Rng, n: usize, tier: &str) -> Vec<String> {
     let mut out = Vec::new();
     let maxn: u64 = if tier == "thorough" { 4 } else { 3 };
@@ -340,21 +710,95 @@ fn gen(rng: &mut Rng, n: usize, tier: &str) -> Vec<String> {
             out.push(show_case(mode, dur, cond, &b));
         }
     }
+
+    // (3) long histories in ONE interleaving each: 5..12 (thorough: ..24) events per side of 1..3 keys, progressing
+    // timestamps, evicting watermark advances in between (sliding per-key queues: ring buffers wrap, grow, empty)
+    let thorough = tier == "thorough";
+    let maxlong: u64 = if thorough { 24 } else { 12 };
+    for i in 0..n / 2 {
+        let nl = rng.range(5, maxlong) as usize;
+        let nr = if rng.chance(1, 4) { rng.range(1, 4) as usize } else { rng.range(5, maxlong) as usize };
+        let (nl, nr) = if rng.chance(1, 2) { (nl, nr) } else { (nr, nl) };
+        let (dur, cond, ops) = long_history(rng, nl, nr);
+        let mode = if i % 3 == 2 { 'M' } else { 'D' };
+        let ops = if mode == 'M' && rng.chance(1, 2) { with_unrouted(&ops, rng) } else { ops };
+        // one in six of them on epoch-scale timestamps
+        let ops = if i % 6 == 5 { shifted(&ops, *rng.pick(&BIG_BASES)) } else { ops };
+        out.push(show_case(mode, dur, cond, &ops));
+    }
+
+    // (4) large timestamps (epoch seconds .. nanoseconds, beyond 2^24 / 2^31 / 2^32 / 2^53 / 2^62): configurations as in (2) on top of a large base offset,
+    // ALL merges, the same three watermark variants (watermarks carry the offset too; a few stay small / negative)
+    for _ in 0..n / 4 {
+        let nl = rng.range(0, maxn).max(rng.range(1, maxn)) as usize;
+        let nr = rng.range(0, maxn).max(rng.range(1, maxn)) as usize;
+        let nkeys = rng.range(1, 2);
+        let base = *rng.pick(&BIG_BASES);
+        let (dom, durs): (u64, &[u64]) = if rng.chance(3, 4) {
+            (*rng.pick(&[3u64, 5, 8]), &[0, 999, 1000, 1999, 2000, 3000, 5000])
+        } else {
+            (*rng.pick(&[300u64, 600, 1100]), &[0, 1000, 5000, 100_000, 255_000, 256_000, 300_000, 512_000])
+        };
+        let dur = *rng.pick(durs);
+        let cond = if rng.chance(2, 3) { 0 } else { rng.range(1, 3) };
+        let ls = rand_events(rng, nl, nkeys, dom, false);
+        let rs = rand_events(rng, nr, nkeys, dom, false);
+        let slack = rng.below(4) as i64;
+        for m in merges(&ls, &rs) {
+            let mode = if rng.chance(2, 3) { 'D' } else { 'M' };
+            out.push(show_case(mode, dur, cond, &shifted(&m, base)));
+            out.push(show_case(mode, dur, cond, &shifted(&with_tracking_wm(&m, slack, rng), base)));
+            let b = shifted(&with_random_wm(&m, dom, rng), base);
+            // small and negative watermarks next to huge timestamps never evict
+            let b = if rng.chance(1, 4) {
+                let mut b = b;
+                b.insert(rng.below(b.len() as u64 + 1) as usize, Op::Wm('l', rng.below(9) as i64 - 4));
+                b
+            } else {
+                b
+            };
+            out.push(show_case(mode, dur, cond, &b));
+        }
+    }
+
+    // (5) several joins registered on ONE manager, sharing streams in the same and in different roles; every
+    // join's batches are compared with ITS OWN reference join
+    for _ in 0..n / 6 {
+        multi_join_cases(rng, &mut out, thorough);
+    }
     out
 }
 
-fn shrink(case: &str) -> Vec<String> {
-    let Some((mode, dur, cond, ops)) = parse_case(case) else { return vec![] };
-    let mut out: Vec<String> =
-        shrink_list(&ops).into_iter().map(|v| show_case(mode, dur, cond, &v)).collect();
-    if mode == 'M' {
-        out.push(show_case('D', dur, cond, &ops));
-    }
-    if cond != 0 {
-        out.push(show_case(mode, dur, 0, &ops));
+/// candidates with smaller values inside the ops (payload, timestamps, watermarks)
+fn shrink_values(ops: &[Op]) -> Vec<Vec<Op>> {
+    let mut out = Vec::new();
+    // common offset of all timestamps (and watermarks): drop it, halve it, lower it below 2^53
+    let min_ts = ops.iter().filter_map(ts_of).min().unwrap_or(0);
+    if min_ts > 0 {
+        let mut subs = vec![min_ts, min_ts / 2];
+        if min_ts > (1 << 53) {
+            subs.push(min_ts - (1 << 53));
+        }
+        if min_ts > 1000 {
+            subs.push(min_ts % 1000);
+            subs.push(1);
+        }
+        for sub in subs {
+            if sub == 0 {
+                continue;
+            }
+            out.push(
+                ops.iter()
+                    .map(|op| match op {
+                        Op::Ev(s, e) => Op::Ev(*s, Ev { ts: e.ts - sub, ..e.clone() }),
+                        Op::Wm(s, w) => Op::Wm(*s, *w - sub as i64),
+                    })
+                    .collect(),
+            );
+        }
     }
     for i in 0..ops.len() {
-        let mut v = ops.clone();
+        let mut v = ops.to_vec();
         match &mut v[i] {
             Op::Ev(_, e) => {
                 if e.v != 0 {
@@ -373,8 +817,43 @@ fn shrink(case: &str) -> Vec<String> {
                 }
             }
         }
-        out.push(show_case(mode, dur, cond, &v));
+        out.push(v);
     }
+    out
+}
+
+fn shrink(case: &str) -> Vec<String> {
+    if case.starts_with("J ") {
+        let Some((joins, ops)) = parse_jcase(case) else { return vec![] };
+        let mut out: Vec<String> = Vec::new();
+        if joins.len() > 1 {
+            for i in 0..joins.len() {
+                let mut js = joins.clone();
+                js.remove(i);
+                out.push(show_jcase(&js, &ops));
+            }
+        }
+        out.extend(shrink_list(&ops).into_iter().map(|v| show_jcase(&joins, &v)));
+        for i in 0..joins.len() {
+            if joins[i].cond != 0 {
+                let mut js = joins.clone();
+                js[i].cond = 0;
+                out.push(show_jcase(&js, &ops));
+            }
+        }
+        out.extend(shrink_values(&ops).into_iter().map(|v| show_jcase(&joins, &v)));
+        return out;
+    }
+    let Some((mode, dur, cond, ops)) = parse_case(case) else { return vec![] };
+    let mut out: Vec<String> =
+        shrink_list(&ops).into_iter().map(|v| show_case(mode, dur, cond, &v)).collect();
+    if mode == 'M' {
+        out.push(show_case('D', dur, cond, &ops));
+    }
+    if cond != 0 {
+        out.push(show_case(mode, dur, 0, &ops));
+    }
+    out.extend(shrink_values(&ops).into_iter().map(|v| show_case(mode, dur, cond, &v)));
     out
 }
 
